@@ -30,7 +30,18 @@ func VerifC10ScalarCodecs() {
 	b, merr := yaml.Marshal(m)
 	var m2 Meter
 	uerr := yaml.Unmarshal(b, &m2)
-	vf.Assert("meter-yaml-round-trip", merr == nil && uerr == nil && m2 == m)
+	// a meter a MIDI file can state (numerator in a byte, denominator a power of two up to 128)
+	// survives printing and re-reading; any other is refused when read, never read as another
+	pow2 := false
+	for _, d := range []uint{1, 2, 4, 8, 16, 32, 64, 128} {
+		pow2 = vf.Ite(den == d, true, pow2)
+	}
+	statable := vf.Ite(num <= 255, pow2, false)
+	if statable {
+		vf.Assert("meter-yaml-round-trip", merr == nil && uerr == nil && m2 == m)
+	} else {
+		vf.Assert("unstatable-meter-is-refused", merr == nil && uerr != nil)
+	}
 
 	bpm := BPM(vf.NondetUint("bpm"))
 	vf.Assume(bpm >= 1)
@@ -38,7 +49,12 @@ func VerifC10ScalarCodecs() {
 	bb, berr := yaml.Marshal(bpm)
 	var bpm2 BPM
 	buerr := yaml.Unmarshal(bb, &bpm2)
-	vf.Assert("bpm-yaml-round-trip", berr == nil && buerr == nil && bpm2 == bpm)
+	// likewise the tempo: 60,000,000/bpm must fit 24 bits, i.e. bpm >= 4
+	if bpm >= 4 {
+		vf.Assert("bpm-yaml-round-trip", berr == nil && buerr == nil && bpm2 == bpm)
+	} else {
+		vf.Assert("unstatable-tempo-is-refused", berr == nil && buerr != nil)
+	}
 
 	d := DynamicSign(vf.NondetIntRange("dyn", 1, 6))
 	db, derr := yaml.Marshal(d)
